@@ -111,7 +111,7 @@ class Step:
         s.rec = recs[0]; s.locals = s.rec['locals']
         # the loop's lists under canonical names: a list that the returned model exposes in field F is called by F's series name,
         # whatever the local variable is called (the proofs speak about the reported series, not about local names)
-        lists = dict(s.rec['lists'])
+        lists = dict(s.rec['lists']); alias_ = {}
         m = s.model
         if isinstance(m, Obj):
             rev = {v: k for k, v in s.FIELD.items()}
@@ -121,8 +121,8 @@ class Step:
                         if g is v.grow:
                             canon = rev.get(fld, fld)
                             if L != canon and canon not in s.rec['lists']:
-                                lists[canon] = g          # the local's own name stays valid as well
-        s.lists = lists
+                                del lists[L]; lists[canon] = g; alias_[L] = canon          # one entry per list; the local's own name is kept as an alias for look-ups
+        s.lists = lists; s.alias = alias_
 
     FIELD = {'feed_composition': 'feed_compositions'}
 
@@ -136,6 +136,7 @@ class Step:
         """the loop's list for a series: by the local's name, or - if the locals were renamed - the list that the returned ProcessModel
         exposes in the corresponding field"""
         if name in s.lists: return name
+        if name in getattr(s, 'alias', {}): return s.alias[name]
         m = s.model
         fld = s.FIELD.get(name, name)
         v = m.f.get(fld) if isinstance(m, Obj) else None
